@@ -172,29 +172,33 @@ def rule_cadence(ctx):
     fn = tu.func('reb_simulationarchive_heartbeat')
     n = 0
     samples = []
-    # three mode branches: if (auto_X != 0) { if (next_Y <= now) { next_Y += auto_X; save } }
-    for ifs in walk(cfront.body(fn)):
-        if ifs.get('kind') != 'IfStmt':
+    # three mode branches, in whatever nesting: under (auto_X != 0) and (next_Y <= now) the list { next_Y += auto_X; save }
+    from . import pathcond
+    pcs = pathcond.conditions(fn)
+    for comp in walk(cfront.body(fn)):
+        if comp.get('kind') != 'CompoundStmt':
             continue
-        c = render(ifs['inner'][0])
-        m = re.match(r'^\(r\.simulationarchive_auto_(\w+)!=0(?:\.0)?\)$', c.replace(' ', ''))
-        if not m:
+        items = comp.get('inner', [])
+        saves = [i for i, st in enumerate(items) if strip(st).get('kind') == 'CallExpr' and callee_name(strip(st)) == 'reb_simulation_save_to_file']
+        if not saves:
             continue
-        inner = [x for x in walk(ifs['inner'][1]) if x.get('kind') == 'IfStmt']
-        if not inner:
-            continue   # the modes++ counters
-        mode = m.group(1)
+        conds = pcs.get(id(items[saves[0]]), [])
+        modes_ = [m_.group(1) for c_ in conds for m_ in [re.search(r'r\.simulationarchive_auto_(\w+)', c_)] if m_ and not c_.startswith('!')]
+        if not modes_:
+            continue
+        mode = modes_[-1]
         n += 1
-        where = 'src/simulationarchive.c:%s reb_simulationarchive_heartbeat (mode %s)' % (line_of(ifs), mode)
-        test = render(inner[0]['inner'][0])
-        body = inner[0]['inner'][1]
+        where = 'src/simulationarchive.c:%s reb_simulationarchive_heartbeat (mode %s)' % (line_of(items[saves[0]]), mode)
+        tests = [c_ for c_ in conds if 'simulationarchive_next' in c_]
+        test = tests[-1] if tests else ''
         stm = []
-        for e in walk(body):
-            if is_assign(e):
-                stm.append(('set', render(e['inner'][0]), e['opcode'], render(e['inner'][1])))
-            elif e.get('kind') == 'CallExpr' and callee_name(e) == 'reb_simulation_save_to_file':
+        for st in items:
+            s_ = strip(st)
+            if is_assign(s_):
+                stm.append(('set', render(s_['inner'][0]), s_['opcode'], render(s_['inner'][1])))
+            elif s_.get('kind') == 'CallExpr' and callee_name(s_) == 'reb_simulation_save_to_file':
                 stm.append(('save',))
-        sets = [s for s in stm if s[0] == 'set']
+        sets = [s_ for s_ in stm if s_[0] == 'set']
         key = 'heartbeat:' + mode
         if len(sets) != 1 or ('save',) not in stm:
             ctx.report('R06.5', key + ':shape', where, 'the branch is not "advance next; save" (%s)' % stm)
